@@ -68,6 +68,11 @@ func (client *FStandardClient) Call(fctx FContext, method string, args, result t
 	if err != nil {
 		return err
 	}
+	if resultTransport == nil {
+		// The transport saw a reply without a body (e.g. the empty frame an
+		// HTTP server answers a one-way with); there is nothing to decode.
+		return thrift.NewTTransportException(thrift.END_OF_FILE, "frugal: empty response for two-way request "+method)
+	}
 	return client.processReply(ctx, fctx, method, result, resultTransport)
 }
 
